@@ -5,6 +5,8 @@ pub mod c03;
 pub mod c04;
 pub mod c05;
 pub mod c06;
+pub mod c09;
+pub mod c10;
 pub mod c13;
 
 use crate::run::Tier;
@@ -17,7 +19,30 @@ pub fn dispatch(id: &str, tier: Tier) -> Option<i32> {
         "C04" => Some(c04::run(tier)),
         "C05" => Some(c05::run(tier)),
         "C06" => Some(c06::run(tier)),
+        "C09" => Some(c09::run(tier)),
+        "C10" => Some(c10::run(tier)),
         "C13" => Some(c13::run(tier)),
         _ => None,
+    }
+}
+
+/// Sub-commands run in fresh child processes by some checks.
+pub fn sub(args: &[String]) -> i32 {
+    match args.first().map(|s| s.as_str()) {
+        Some("c10-digest") => {
+            let seed: u64 = args.get(1).and_then(|s| s.parse().ok()).unwrap_or(1);
+            let n: u64 = args.get(2).and_then(|s| s.parse().ok()).unwrap_or(1000);
+            let d = if c10::DIRECT {
+                c10::corpus_digest(seed, n)
+            } else {
+                "-".into()
+            };
+            println!("{} {}", d, c10::corpus_e2e_digest(seed, n / 4));
+            0
+        }
+        _ => {
+            eprintln!("unknown sub-command {:?}", args);
+            2
+        }
     }
 }
